@@ -99,6 +99,20 @@ Theorem C10_override_keeps_structure :
 Proof. exact override_keeps_structure. Qed.
 Print Assumptions C10_override_keeps_structure.
 
+(* "true gradients": the backward rule of Dense / Conv2D layers (in the model and in the published recursion) is the
+   adjoint of the layer's linear map, <W d, g> = <d, W^T g>, and the layer's increments are that linear map *)
+Theorem C10_dense_vjp_adjoint :
+  forall W g d, (forall w, In w W -> length w = length d) ->
+    dot (map (fun w => dot w d) W) g = dot d (transpose_mul W g (length d)).
+Proof. exact dense_vjp_adjoint. Qed.
+Print Assumptions C10_dense_vjp_adjoint.
+
+Theorem C10_affine_increment :
+  forall W b x d, length x = length d ->
+    vsub (affine W b (vadd x d)) (affine W b x) = map (fun w => dot w d) (firstn (length b) W).
+Proof. exact affine_increment. Qed.
+Print Assumptions C10_affine_increment.
+
 Theorem C10_relu_explainer_batch_invariant :
   forall p n bs bs' xs ts, bs_ok bs -> bs_ok bs' -> relu_explainer p n bs xs ts = relu_explainer p n bs' xs ts.
 Proof. exact relu_explainer_batch_invariant. Qed.
